@@ -193,7 +193,13 @@ def unPiece (op : UnOp) : Piece := .t (unTok op) (unSpell op)
 /-! ## Literals (`format_literal`, target HLSL) followed by what the lexer makes of the text -/
 
 /-- eighths of a binary float given without its sign bit: `q` with value `q/8`, when the value is a multiple of 1/8
-below 4096 (there Rust's shortest-round-trip `Display` is the exact decimal expansion) -/
+below 4096 (there Rust's shortest-round-trip `Display` is the exact decimal expansion).
+Since 265a080 `format_literal` has one more guarded arm for `Float16` / `Float32` (`f32_digits_round_twice(v)`: the
+`Display` digits, read as a double and narrowed, name another single; then the digits of `v as f64` are printed).  On this
+subset the guard is false: a whole value is taken by the earlier `.0` arm, and for the other values the `Display` text is
+the exact expansion of a value that is a single, so reading it as a double and narrowing gives `v` back — the default arm
+prints, as modelled.  (The arm itself is modelled and proved in property C10's `Model/LitFormat.lean`; its order among the
+arms is pinned by `Thm.C10.literal_tables_as_modelled`, which is part of C09's build.) -/
 def eighths? (expBits manBits bits : Nat) : Option Nat :=
   let e := bits / 2 ^ manBits % 2 ^ expBits
   let m := bits % 2 ^ manBits
